@@ -108,8 +108,59 @@ class MemberDispatcher:
         self.audit(ev, live)
 
 
+def scale_masses(text, sysw, scale):
+    """multiply every absolute mass specifier (and the system mass argument) by `scale`; percentages stay"""
+    import re
+
+    def rep(mm):
+        if mm.group(2):
+            return mm.group(0)
+        return ".|%r|" % (float(mm.group(1)) * scale)
+
+    return re.sub(r"\.\|\s*([0-9.eE+\-]+)\s*(%?)\s*\|", rep, text), (None if sysw is None else sysw * scale)
+
+
+def _sibling_systems(g, text, sysw, M_sys, viols, stats):
+    def v(inv, msg):
+        viols.append({"property": "C13", "invariant": inv, "msg": msg, "features": ["sibling_system"]})
+
+    # (a) the same components with every mass 2.5 times as large
+    t2, w2 = scale_masses(text, sysw, 2.5)
+    try:
+        s2 = g.System(t2, w2) if w2 else g.System(t2)
+        stats["sibling_systems"] = stats.get("sibling_systems", 0) + 1
+        if not s2.generable:
+            v("generable_flag", f"System({t2!r}, {w2!r}) built after System({text!r}) is reported not generable")
+        elif abs(float(s2.system_mass) - 2.5 * M_sys) > 1e-6 * M_sys:
+            v("system_mass_differs_from_specifiers", f"System({t2!r}, {w2!r}) built after a system of mass {M_sys!r} reports system mass {s2.system_mass!r}")
+    except SimAbort:
+        raise
+    except Exception as exc:
+        v("workload_rejected_by_parser", f"System({t2!r}, {w2!r}) built after System({text!r}) raised {exc!r}")
+    # (b) percentages only and no mass from the caller: under-determined, must refuse
+    if sysw is not None and "%" in text:
+        try:
+            s3 = g.System(text)
+            stats["sibling_systems"] = stats.get("sibling_systems", 0) + 1
+            if s3.generable:
+                v("generable_flag", f"System({text!r}) without a system mass, built after the same text with mass {sysw!r}, is reported generable")
+            try:
+                next(s3.generator)
+                v("non_generable_system_generates", f"System({text!r}) without a system mass yielded a molecule (an earlier system had mass {sysw!r})")
+            except StopIteration:
+                v("non_generable_system_iterates", f"System({text!r}) without a system mass ended iteration silently")
+            except SimAbort:
+                raise
+            except Exception:
+                pass
+        except SimAbort:
+            raise
+        except Exception:
+            pass  # rejecting the under-determined text at construction is a refusal too
+
+
 def run_system(text, ops_seed, sched_kwargs, n_generators=1, faults=None, props=("C13",), system_molweight=None, max_steps=400,
-               wall=120, embed="stub", policy_rounds="random", check_generate=True):
+               wall=120, embed="stub", policy_rounds="random", check_generate=True, sibling_systems=False):
     """Returns dict with violations, stats, digest."""
     g = boot.load()
     faults = list(faults or [])
@@ -401,6 +452,14 @@ def run_system(text, ops_seed, sched_kwargs, n_generators=1, faults=None, props=
                     if fam:
                         feats += ["draw_fail", "family=" + fam[-1]]
                     viols.append({"property": "C13", "invariant": "member_generation_raised", "msg": f"System.generate raised {exc!r}", "features": feats})
+            # other systems built in the same process from the same component texts: each has the mass and the generability
+            # its own specifiers give it, whatever was built before
+            if sibling_systems and expect_generable:
+                world.hooks.remove(disp)
+                try:
+                    _sibling_systems(g, text, system_molweight, M_sys, viols, stats)
+                finally:
+                    world.hooks.append(disp)
             viols.extend(disp.violations)
             picks = disp.pick_vectors
     except WallTimeout:
